@@ -41,6 +41,12 @@ func (famDecoder) Gen(r *rand.Rand, n int, _ map[string]string) []any {
 		}
 		sec := 1700000000 + r.Intn(50)
 		total := 0
+		// one case in thirty carries a run of long records (beyond any fixed scratch size a decoder might use)
+		longRun, longAt := r.Intn(30) == 0, 0
+		if longRun {
+			nf = 2 + r.Intn(4)
+			longAt = r.Intn(nf - 1)
+		}
 		for j := 0; j < nf; j++ {
 			sec += r.Intn(3)
 			f := Frame{Typ: 1 + r.Intn(2), TS: []int{sec, 0}}
@@ -53,6 +59,9 @@ func (famDecoder) Gen(r *rand.Rand, n int, _ map[string]string) []any {
 			ml := r.Intn(20)
 			if r.Intn(10) == 0 {
 				ml = r.Intn(300)
+			}
+			if longRun && (j == longAt || j == longAt+1 || r.Intn(3) == 0) {
+				ml = []int{4060, 4096, 4097, 5000, 8192, 9000, 16385}[r.Intn(7)]
 			}
 			msg := make([]int, ml)
 			for x := range msg {
